@@ -34,6 +34,9 @@ func buildAfterDelete(set []rsx.RouteSpec, extra string, first bool) (*rsx.Env, 
 // hostMatches reports whether the (stripped) request host equals the host pattern label for
 // label, each {param} standing for one non-empty dot-free label part.
 func hostMatches(pat *ref.Pattern, host string) bool {
+	if strings.Contains(host, "/") {
+		return false // no hostname, and no label part, contains a slash
+	}
 	var rec func(ti, pos int) bool
 	rec = func(ti, pos int) bool {
 		if ti == len(pat.HostToks) {
@@ -73,7 +76,9 @@ func allHosts(maxLen int) []string {
 	return out
 }
 
-var structured = []string{"", "a.b:80", "a.b.", "a.b.:80", "a.b..", "b.a.b:8080", "x.b", "a.x", "1.2.3.4", "1.2.3.4:80", "[::1]:80", "[::1]", "::1", "a.b:", "a.b:x", ":80", "A.B", "a.b:80:80", "b.a.b.", "ab.b:1", ".", "..", "a.b-c", "a.b.c", "a.b-", "a.b-c:80", "a.b.c.", "{x}.b", "{h}.b", "{.b", "a.{t}", "a.{", "a{m}.b", "a{.b", "{h}.{t}", "}.b", "{x}.b:80"}
+var structured = []string{"", "a.b:80", "a.b.", "a.b.:80", "a.b..", "b.a.b:8080", "x.b", "a.x", "1.2.3.4", "1.2.3.4:80", "[::1]:80", "[::1]", "::1", "a.b:", "a.b:x", ":80", "A.B", "a.b:80:80", "b.a.b.", "ab.b:1", ".", "..", "a.b-c", "a.b.c", "a.b-", "a.b-c:80", "a.b.c.", "{x}.b", "{h}.b", "{.b", "a.{t}", "a.{", "a{m}.b", "a{.b", "{h}.{t}", "}.b", "{x}.b:80",
+	// a slash inside the Host (the root edge of a path-only tree is a '/' edge too)
+	"/", "/a", "/a/", "/a/b", "a/", "a.b/a", "/b", "/a:80", "/a."}
 
 func patterns() []string {
 	var pats []string
